@@ -13,8 +13,9 @@ MANIFEST = {
     "text": "Lean theorems over a file model with a volatile image and a crash relation (process kill = volatile image "
             "after k events; power loss = any durable length since the last sync and, per 512-byte sector, any version "
             "since the last sync covering it), for every event trace satisfying the decidable writer protocol `conforms` "
-            "(transcribed from lm/binary_format.cc: incomplete marker until one commit write inside a header that fits a "
-            "sector, preceded by a sync of the whole file with no write in between, nothing written after): kill_safe, "
+            "(transcribed from lm/binary_format.cc: incomplete marker up to a sync of the whole file, after which only header "
+            "bytes are written, ending with the commit write that completes the Sanity block inside a header that fits a "
+            "sector; nothing written after): kill_safe, "
             "power_safe (every allowed image is rejected or byte-identical to the complete file), prefix_rejected (every "
             "truncation is rejected unless only bytes after the mapped region are missing), header_last.  The protocol is "
             "decided on the REAL system-call trace of build_binary on every run.",
@@ -24,14 +25,17 @@ MANIFEST = {
             "power-loss and truncation images; the real loaders (LoadVirtual default / with EnumerateVocab + READ) are run on "
             "every image: model `loads` = real accept, and accepted => query answers (float bits) and vocabulary identical to "
             "the complete file.  Assumed, not observed: the crash model itself (sector atomicity, msync/fsync semantics, "
-            "length durable at any sync, path fresh); instants inside one WriteHeader call are not sampled (the header store is "
-            "one event).  6 model types x {mmap, after} x with/without vocabulary strings.",
+            "length durable at any sync, path fresh).  Instants inside WriteHeader are covered exactly: its store order is "
+            "regenerated from the current source by single-stepping it on a write-protected page (tools/probe_C09_storeorder.cc) and "
+            "the header store of every mmap trace is replaced by those stores; the driver's power-loss enumeration is tied to the "
+            "crash relation by crash_enumeration_sound/complete.  6 model types x {mmap, after} x with/without vocabulary strings.",
     "technique": "Lean 4 proof over a crash model + protocol conformance of the real system-call trace + differential "
                  "correspondence of crash images with the real loader",
 }
 
 REQUIRED = ["KV.C09.kill_safe", "KV.C09.power_safe", "KV.C09.prefix_rejected", "KV.C09.header_last",
-            "KV.C09.mmap_vocab_header_not_last", "KV.C09.real_header_fits_sector", "KV.C09.conforms_unpack"]
+            "KV.C09.mmap_vocab_header_not_last", "KV.C09.real_header_fits_sector", "KV.C09.conforms_unpack",
+            "KV.C09.crash_enumeration_sound", "KV.C09.crash_enumeration_complete", "KV.C09.sanity_first_not_conforming"]
 
 TYPES = [
     ("probing", ["probing"], []),
@@ -458,7 +462,8 @@ def run(ctx):
         "crash model: kill = page cache survives; power loss = per-sector any version since the last covering sync, any length "
         "since the last sync; 512-byte sector writes atomic; header <= 512 bytes (theorem real_header_fits_sector)",
         "msync(MS_SYNC)/fsync force data (and the file length) to stable storage; the output path did not exist before",
-        "instants inside one WriteHeader call are not observed (the header store is one event)",
+        "WriteHeader's store order is that of the probe's compilation (-O1, same flags as the tools build), not of the inlined "
+        "copy inside build_binary",
         "body size announced by a header (Size(counts, config)) is taken from the complete file of the same build (C04's subject)",
     ]
     flow.report_obligation_failures(ctx, problems, found)
